@@ -424,6 +424,16 @@ package workflow
 //@   ensures [nothing-is-removed] (forall d any, k string :: old(indag(d, k)) ==> indag(d, k)) && \
 //@        (forall d any, t string, f string :: old(dep(d, t, f)) != "" ==> dep(d, t, f) == old(dep(d, t, f)))
 //@   ensures [graph-identity-kept] nodedag(currentNode) == dag
+//@   site call prepareDependencies#2 assert [a-map-entry-is-prepared-under-its-parents-path-plus-its-own-key] \
+//@        len(callarg(prepareDependencies, 2, 4)) == len(entry_pathInCurrentNode) + 1 && \
+//@        (forall i int :: 0 <= i && i < len(entry_pathInCurrentNode) ==> callarg(prepareDependencies, 2, 4)[i] == entry_pathInCurrentNode[i]) && \
+//@        any(callarg(prepareDependencies, 2, 4)[len(entry_pathInCurrentNode)]) == key && callarg(prepareDependencies, 2, 3) == currentNode
+//@   site call prepareDependencies#1 assert [a-list-item-is-prepared-under-its-parents-path-plus-its-index] \
+//@        len(callarg(prepareDependencies, 1, 4)) == len(entry_pathInCurrentNode) + 1 && \
+//@        (forall i int :: 0 <= i && i < len(entry_pathInCurrentNode) ==> callarg(prepareDependencies, 1, 4)[i] == entry_pathInCurrentNode[i]) && \
+//@        callarg(prepareDependencies, 1, 4)[len(entry_pathInCurrentNode)] == callres(strconv.Itoa, 1, 0) && callarg(prepareDependencies, 1, 3) == currentNode
+//@   site call prepareOneOfExprDependencies#1 assert [tagged-values-get-their-group-node-under-this-path] callarg(prepareOneOfExprDependencies, 1, 4) == entry_pathInCurrentNode && callarg(prepareOneOfExprDependencies, 1, 3) == currentNode
+//@   site call prepareOptionalExprDependencies#1 assert [tagged-values-get-their-group-node-under-this-path] callarg(prepareOptionalExprDependencies, 1, 4) == entry_pathInCurrentNode && callarg(prepareOptionalExprDependencies, 1, 3) == currentNode
 //@   loop 1 invariant (forall d any, k string :: old(indag(d, k)) ==> indag(d, k)) && (forall d any, t string, f string :: old(dep(d, t, f)) != "" ==> dep(d, t, f) == old(dep(d, t, f)))
 //@   loop 2 invariant (forall d any, k string :: old(indag(d, k)) ==> indag(d, k)) && (forall d any, t string, f string :: old(dep(d, t, f)) != "" ==> dep(d, t, f) == old(dep(d, t, f)))
 //
